@@ -13,6 +13,12 @@ use crate::{
 
 const STACK_LIMIT: usize = 32;
 
+/// Expressions and IF statements are evaluated (and analyzed) by recursive
+/// descent, so the nesting of parentheses, subscripts, function calls and
+/// THEN/ELSE clauses has to be capped, or a long enough line would overflow
+/// the native stack and take the whole process down.
+pub const NESTING_LIMIT: usize = 100;
+
 #[derive(Debug, Default, Copy, Clone, PartialEq)]
 pub enum ProgramLine {
     #[default]
